@@ -121,6 +121,10 @@ class Block:
         """Returns True if counts and gradings are defined for all axes"""
         return all(axis.is_defined for axis in self.axes)
 
+    def reset_grading(self) -> None:
+        for axis in self.axes:
+            axis.reset_grading()
+
     def grade(self):
         for axis in self.axes:
             axis.grade()
